@@ -1,6 +1,7 @@
 #!/bin/sh
-# thorough tier of every check, sequentially (run from a snapshot via vp run)
-for p in C09 C03 C08 C14 C13 C12 C16 C10 C02 C15 C18; do
+# thorough tier of every check, sequentially (run from a snapshot via vp run); optional list of properties
+PROPS="${*:-C09 C03 C08 C14 C13 C12 C16 C10 C02 C15 C18}"
+for p in $PROPS; do
   s=$(date +%s)
   DSIM_EVIDENCE_DIR=$PWD/thorough_evidence ./check $p --tier thorough > thorough_$p.log 2>&1
   rc=$?
